@@ -105,6 +105,49 @@ def main():
     cmp_item("mapChildDue", "le", one(r"child\.next_scheduled_time\(\) (<=|<) evaluation_time \|\|", mp))
     cmp_item("mapChildFuture", "gt", one(r"next != MAX_DT && next (>=|>) evaluation_time", mp))
 
+
+    # ---- C19: rank weights of the operator overload ranking (type_pattern.cpp, operator_dispatch.h)
+    tp = read("src/hgraph/types/type_pattern.cpp")
+    od = read("include/hgraph/types/operator_dispatch.h")
+    nat_item("rankLarge", 10000, one(r"constexpr int LARGE_RANK = (\d+);", tp))
+    nat_item("rankScalarVar", 100, one(r"constexpr int SCALAR_VAR_RANK = (\d+);", tp))
+    nat_item("rankCollectTsDefault", 10000, one(r"collect_ts_rank\(const TypePattern &pattern, RankAccumulator &acc, int var_rank = (\d+)\)", od))
+    ms = re.findall(r"std::max\((\d+), var_rank / (\d+)\)", od)
+    same = ms and all(x == ms[0] for x in ms)
+    nat_item("rankDecayFloor", 1, ms[0][0] if same else None)
+    nat_item("rankDecayDiv", 2, ms[0][1] if same else None)
+    ms = re.findall(r"collect_scalar_rank\(pattern\.scalar, acc, (\d+)\);", od)
+    nat_item("rankCollectScalarDefault", 100, ms[0] if ms and all(x == ms[0] for x in ms) else None)
+    m = re.search(r"\(pattern\.size_var \? (\d+) : pattern\.fixed_size == 0 \? (\d+) : 0\)", tp)
+    nat_item("rankTslSizeVarBonus", 5, m.group(1) if m else None)
+    nat_item("rankTslAnySizeBonus", 10, m.group(2) if m else None)
+    nat_item("rankTswAnyWindowBonus", 10, one(r"\(pattern\.any_window \? (\d+) : 0\)", tp))
+
+    # ---- C08: the feedback sink books the paired source one smallest step later (feedback_node.cpp); MIN_TD (date_time.h)
+    fb = read("src/hgraph/runtime/feedback_node.cpp")
+    ms = re.findall(r"schedule_node\(source_node\.node_index\(\), evaluation_time \+ MIN_TD\);", fb)
+    items["fbDelayIsOneMinTd"] = ("Bool", "true" if len(ms) == 1 else "false", "true",
+                                  "found" if re.search(r"schedule_node\(source_node\.node_index\(\), evaluation_time", fb) else "pattern-missing")
+    dt = read("include/hgraph/util/date_time.h")
+    nat_item("minTdTicks", 1, one(r"constexpr TimeDelta smallest_time_increment\(\) noexcept \{ return TimeDelta\((\d+)\); \}", dt))
+    ok_st = re.search(r"constexpr DateTime min_start_time\(\) noexcept \{ return min_time\(\) \+ smallest_time_increment\(\); \}", dt) is not None
+    items["minStIsMinDtPlusMinTd"] = ("Bool", "true" if ok_st else "false", "true",
+                                      "found" if "min_start_time()" in dt else "pattern-missing")
+
+    # ---- C02: the simulation clock advances to min(pending, end) and the run loop ends at `next >= end_time`
+    m = re.search(r"const DateTime next = std::min\(pending_time, state\.end_time\);", ex)
+    items["simNextIsMinOfPendingAndEnd"] = ("Bool", "true" if m else "false", "true",
+                                            "found" if "advance_simulation" in ex else "pattern-missing")
+    cmp_item("runEndsWhenNext", "ge", one(r"if \(next == MAX_DT \|\| next (>=|>) state\.end_time\)", ex))
+    cmp_item("runEndsWhenTime", "ge", one(r"evaluation_time == MAX_DT \|\|\s*evaluation_time (>=|>) state\.end_time\)", ex))
+
+    # ---- C12: switch_ re-instantiates iff nothing is active, reload_on_ticked, or the key differs
+    sw = read("src/hgraph/runtime/switch_node.cpp")
+    m = re.search(r"if \(!storage\.active_slot\.has_value\(\) \|\| context\.spec\.reload_on_ticked \|\|\s*!same_key\) \{", sw)
+    m2 = re.search(r"const bool same_key = storage\.active_slot\.has_value\(\) &&\s*storage\.active_key\.has_value\(\) &&\s*key_value\.equals\(storage\.active_key\);", sw)
+    items["switchReloadRule"] = ("Bool", "true" if (m and m2) else "false", "true",
+                                 "found" if "same_key" in sw else "pattern-missing")
+
     os.makedirs(os.path.dirname(OUT_JSON), exist_ok=True)
     lean = ["/- GENERATED by tools/extract.py from /repo on every run; do not edit. -/",
             "namespace HgVerif.Extracted", "",
